@@ -23,8 +23,10 @@ Decided:
          super with the same secret_key;
   R16.d  key plumbing: load_cookie gets self.secret_key / self.cookie_name; secret_key is the constructor
          argument or os.urandom; the cookie is provided under arg_name (= provides); save_cookie runs on the
-         next() result on every normal path; _expires is stamped only when absent and expiry is numeric, and what is stamped
-         is the sum of one clock reading and self.expiry (no term subtracted, none missing).
+         next() result on every normal path; _expires is stamped only when absent -- as the cookie says after the endpoint
+         ran: through a membership test or a lookup with a sentinel default -- and expiry is numeric, and what is stamped
+         is the sum of one clock reading and self.expiry (no term subtracted, none missing); JSONCookie.set_expires records
+         its argument under the key the dependency compares with the clock, on every path.
   R16.e  per-request state: no write of request() (attribute / item store, delete, mutating method call, global
          assignment; in the method itself or in a method of the class it calls) goes to an object that outlives the call --
          the middleware object, its class, a module-level container, a mutable default, or anything reached through
@@ -454,7 +456,8 @@ def _leaves(fl, fi, e, at, depth):
 
 
 def _is_param(fl, v, st, param):
-    return isinstance(v, ast.Name) and v.id == param and all(d.kind == 'entry' for d in (fl.reaching(param, st) if param in fl.defs else []))
+    """A leaf that is the parameter's name stands for the value on entry (every binding in the function was followed to its value)."""
+    return isinstance(v, ast.Name) and v.id == param
 
 
 def _plain_call(v):
@@ -1045,7 +1048,41 @@ def rule_d(rep, cx):
              'no clock term: a number of seconds is stamped as an absolute time (long past: the cookie is discarded on every load)' if 'clock' not in kinds else
              'no expiry term: the cookie expires the moment it is issued' if 'expiry' not in kinds else 'clock / expiry counted more than once')
         rep.check('R16.d', fkey(rq, '_expires stamp value'), ok, why if ok else 'the stamped expiry %s is not "now + self.expiry": %s' % (short(v, 50), why), ck, s)
+    _set_expires(rep, cx)
     rep.floor('R16.d', 9)
+
+
+def _set_expires(rep, cx):
+    """The application's side of the expiry: JSONCookie.set_expires(t) is how an endpoint ends or limits a session, and the stamp
+    and save_cookie defer to what it leaves in the cookie.  On every normal path it records an expiry under the key the dependency's
+    unserialize compares with the clock, unconditionally (an entry that is there already is replaced), and what it records is its
+    argument on some path (a constant stands in for the NOW marker only)."""
+    from ..effects import Flow
+    dep_keys = set(n.value for c in walk_body(cx.un.node) if isinstance(c, ast.Compare) and any(isinstance(o, (ast.Gt, ast.Lt, ast.GtE, ast.LtE)) for o in c.ops)
+                   for x in ast.walk(c) if isinstance(x, ast.Subscript) for n in ast.walk(x.slice) if isinstance(n, ast.Constant) and isinstance(n.value, str))
+    if EXPIRES not in dep_keys:
+        raise AnalysisError('dependency unserialize: the key compared with the clock is %s, not %r (model out of date)' % (sorted(dep_keys), EXPIRES))
+    se = cx.ck.func('JSONCookie.set_expires')
+    ps = [p_ for p_ in se.params() if p_ != 'self']
+    if 'self' not in se.params() or len(ps) != 1:
+        raise AnalysisError('JSONCookie.set_expires: signature (self, <time>) not found')
+    stores = [st for st, only_if_absent in _stamps(cx, se, 'self') if not only_if_absent]
+    cfg = cfg_of(se)
+    always = bool(stores) and cfg.must_pass(cfg.nodes_of_all(stores), cfg.entry, cfg.exit, normal_only=True)
+    fl = Flow(se)
+    given = False
+    for st in stores:
+        v = _stamp_value(cx, st)
+        if v is None:
+            raise AnalysisError('JSONCookie.set_expires: the value stored by %s is not followed' % short(st, 40))
+        given = given or any(_is_param(fl, lf.value, lf.stmt, ps[0]) for lf in fl.leaves(v, st) if lf.stmt is not None)
+    ok = always and given
+    rep.check('R16.d', fkey(se, 'records the expiry'), ok,
+              'set_expires() stores its argument under %r, the key the dependency compares with the clock, on every path' % EXPIRES if ok else
+              ('set_expires() %s: the expiry an endpoint sets (set_expires(NOW) to end a session) is not in the signed data, the cookie stays valid '
+               'and is presented again' % ('never stores anything under %r, the key the dependency compares with the clock' % EXPIRES if not stores else
+                                           'can return without having replaced the %r entry' % EXPIRES if not always else
+                                           'does not store the time it is given')), se.mod, stores[0] if stores else se.node)
 
 
 def _holds_next_result(fl, name, at, nd, depth):
